@@ -39,6 +39,8 @@ def mutate(rng, s):
 
 def run(ctx):
     lean_obligations(ctx)
+    from framework import run_py_corpus
+    ctx.coverage["corpus_programs"] = run_py_corpus(ctx)
     ctx.coverage["rule"] = ("seeded random machines; every state value (and invalid ones) as the stored value with "
                             "probability 1/2, start_value with probability 0.4, re-activation and re-construction over "
                             "the same model at random points of the history, enter callbacks of the start state that "
